@@ -63,11 +63,26 @@ def run(ctx, col: Collector):
         col.check(not extra, 'C04-direction', 'render_reference:no-extra', 'no other kind produces a plain FOREIGN KEY',
                   f'kinds {sorted(extra)} also produce a plain FOREIGN KEY', node=fi.node, file=fi.file)
         # inline vs not inline generator choice
-        choice = [n for n in ast.walk(fi.node) if isinstance(n, ast.IfExp) and norm(n.test) == f'{p}.inline']
-        okc = bool(choice) and norm(choice[0].body) == 'generate_inline_sql' and norm(choice[0].orelse) == 'generate_not_inline_sql'
-        col.check(okc, 'C04-direction', 'render_reference:inline-choice', 'inline references use the clause generator, others the ALTER TABLE generator',
-                  f'the generator choice is `{norm(choice[0]) if choice else "missing"}`: inline references must become FOREIGN KEY clauses and the others '
-                  f'ALTER TABLE statements', node=choice[0] if choice else fi.node, file=fi.file)
+        GI, GN = 'generate_inline_sql', 'generate_not_inline_sql'
+
+        def gens(nodes):
+            return {x.id for n in nodes for x in ast.walk(n) if isinstance(x, ast.Name) and x.id in (GI, GN)}
+        choice = [(n, [n.body] if isinstance(n, ast.IfExp) else n.body, [n.orelse] if isinstance(n, ast.IfExp) else n.orelse)
+                  for n in ast.walk(fi.node) if isinstance(n, (ast.IfExp, ast.If)) and norm(n.test) == f'{p}.inline']
+        cons = 'render_reference:inline-choice'
+        verdicts = [(gens(b), gens(o), n) for n, b, o in choice if gens(b) or gens(o)]
+        reads_inline = any(isinstance(x, ast.Attribute) and x.attr == 'inline' for x in ast.walk(fi.node))
+        if verdicts and all(b == {GI} and o == {GN} for b, o, _ in verdicts):
+            col.ok('C04-direction', cons, 'inline references use the clause generator, others the ALTER TABLE generator', node=verdicts[0][2], file=fi.file)
+        elif verdicts and any(GN in b or GI in o for b, o, _ in verdicts):
+            n = [v for v in verdicts if GN in v[0] or GI in v[1]][0][2]
+            col.bad('C04-direction', cons, f'the generator choice is `{norm(n)[:100]}`: inline references must become FOREIGN KEY clauses and the others ALTER TABLE statements',
+                    node=n, file=fi.file)
+        elif len(gens([fi.node])) == 1 and not reads_inline:
+            col.bad('C04-direction', cons, f'render_reference uses only {sorted(gens([fi.node]))[0]} and never reads {p}.inline: inline and standalone references are rendered '
+                    f'the same way', node=fi.node, file=fi.file)
+        else:
+            col.unk('C04-direction', cons, 'how render_reference chooses between the clause generator and the ALTER TABLE generator is not recognised', node=fi.node, file=fi.file)
     guarded(col, 'C04-direction', 'direction', direction)
 
     # ---------------------------------------------------------------- C04-sibling
